@@ -322,20 +322,22 @@ def parse_switch(
     func_count = datapack.get_count(name)
     if is_macro_switch(datapack):
         has_default = "default" in case_numbers
+        # macro arguments the case functions are called with
+        arguments = "" if with_str is None else f" with {with_str}"
         for case_body, case_label in zip(func_contents, case_numbers):
             if has_default and case_label != "default":
-                case_body.append(
-                    f"scoreboard players set __found_case__ {datapack.var_name} 1"
-                )
+                # a `return` in the case must not skip the flag: `default` would run as well
+                case_body = [
+                    *datapack.isolate_return(name, case_body, arguments),
+                    f"scoreboard players set __found_case__ {datapack.var_name} 1",
+                ]
             datapack.add_raw_private_function(
                 name, case_body, f"{str(func_count)}/{case_label}"
             )
 
         macro_function_call = (
-            f"${datapack.call_func(name, func_count + '/$(switch_key)')}"
+            f"${datapack.call_func(name, func_count + '/$(switch_key)')}{arguments}"
         )
-        if with_str is not None:
-            macro_function_call = f"{macro_function_call} with {with_str}"
 
         datapack.add_raw_private_function(
             name, [macro_function_call], f"{str(func_count)}/select"
